@@ -19,6 +19,11 @@ Check step_refines : forall (A : Arith) (m : matrix A) (o : @eop A), wf m -> eop
   | _, _ => False
   end.
 Print Assumptions step_refines.
+Example step_refines_nonvacuous :   (* a success and a refusal: set_col 2 exists on the 2x3 matrix, set_col 3 does not *)
+  wf (mkM (A:=AQ) [q 1 1; q 2 1; q 3 1; q 4 1; q 5 1; q 6 1] 2 3) /\ eop_wf (ESetCol (A:=AQ) 2 [q 7 1; q 8 1]) /\
+  is_ok (sstep (absM (mkM (A:=AQ) [q 1 1; q 2 1; q 3 1; q 4 1; q 5 1; q 6 1] 2 3)) (ESetCol (A:=AQ) 2 [q 7 1; q 8 1])) = true /\
+  is_ok (sstep (absM (mkM (A:=AQ) [q 1 1; q 2 1; q 3 1; q 4 1; q 5 1; q 6 1] 2 3)) (ESetCol (A:=AQ) 3 [q 7 1; q 8 1])) = false.
+Proof. repeat split; vm_compute; reflexivity. Qed.
 
 (* history semantics of the correspondence check: a panicking operation leaves the matrix as it was *)
 Theorem run_refines : forall (A : Arith) (ops : list (@eop A)) (m : matrix A),
@@ -79,6 +84,10 @@ Check read_refines : forall (A : Arith) (m : matrix A) (o : @rop A), wf m -> rop
   | _, _ => False
   end.
 Print Assumptions read_refines.
+Example read_refines_nonvacuous :
+  wf (mkM (A:=AQ) [q 1 1; q 2 1; q 3 1; q 4 1; q 5 1; q 6 1] 2 3) /\ rop_wf (RMul (mkM (A:=AQ) (repeat (q 1 2) 15) 3 5)) /\
+  is_ok (sread (absM (mkM (A:=AQ) [q 1 1; q 2 1; q 3 1; q 4 1; q 5 1; q 6 1] 2 3)) (RMul (mkM (A:=AQ) (repeat (q 1 2) 15) 3 5))) = true.
+Proof. repeat split; vm_compute; reflexivity. Qed.
 
 (* every finite history interleaving the 18 editing and the 12 reading operations (a panicking operation is
    skipped): final states correspond and the observed values / panics are the same list on both sides *)
@@ -105,6 +114,9 @@ Proof. exact (@wf_ext). Qed.
 Check matrix_ext : forall (A : Arith) (a b : matrix A), wf a -> wf b -> rows a = rows b -> cols a = cols b ->
   (forall i j, i < rows a -> j < cols a -> entry a i j = entry b i j) -> a = b.
 Print Assumptions matrix_ext.
+Example matrix_ext_nonvacuous :   (* the hypotheses hold for a matrix and its double transpose *)
+  exists t, transpose_in_place (mkM (A:=AQ) [q 1 1; q 2 1; q 3 1; q 4 1; q 5 1; q 6 1] 2 3) = Ok t /\ wf t /\ rows t = 3 /\ cols t = 2.
+Proof. eexists. split; [vm_compute; reflexivity|]. repeat split. Qed.
 
 Theorem transpose_involutive : forall (A : Arith) (m : matrix A), wf m ->
   exists t, transpose_in_place m = Ok t /\ transpose_in_place t = Ok m.
@@ -112,6 +124,9 @@ Proof. exact (@MatrixExt.transpose_involutive). Qed.
 Check transpose_involutive : forall (A : Arith) (m : matrix A), wf m ->
   exists t, transpose_in_place m = Ok t /\ transpose_in_place t = Ok m.
 Print Assumptions transpose_involutive.
+Example transpose_involutive_nonvacuous :
+  wf (mkM (A:=AQ) [q 1 1; q 2 1; q 3 1; q 4 1; q 5 1; q 6 1] 2 3) /\ wf (mkM (A:=AQ) [q 1 1; q 2 1; q 3 1; q 4 1] 2 2).
+Proof. split; reflexivity. Qed.
 
 Theorem mat_mul_eye_r : forall (A : Arith), RingLaws A -> forall m : matrix A, wf m ->
   exists e, eye (cols m) = Ok e /\ mat_mul m e = Ok m.
@@ -153,6 +168,10 @@ Check mat_mul_add_distr_l : forall (A : Arith), RingLaws A -> forall a b c : mat
   exists s ab ac p, madd b c = Ok s /\ mat_mul a b = Ok ab /\ mat_mul a c = Ok ac /\
                     mat_mul a s = Ok p /\ madd ab ac = Ok p.
 Print Assumptions mat_mul_add_distr_l.
+Example mat_mul_transpose_distr_nonvacuous :
+  RingLaws AQ /\ wf (mkM (A:=AQ) (repeat (q 1 2) 6) 2 3) /\ wf (mkM (A:=AQ) (repeat (q 2 3) 15) 3 5) /\
+  wf (mkM (A:=AQ) (repeat (q (-1) 4) 15) 3 5).
+Proof. split; [constructor; exact (F_R AQ_field)|]. repeat split. Qed.
 Example mat_mul_assoc_nonvacuous :
   RingLaws AQ /\ wf (mkM (A:=AQ) (repeat (q 1 2) 6) 2 3) /\ wf (mkM (A:=AQ) (repeat (q 2 3) 15) 3 5) /\
   wf (mkM (A:=AQ) (repeat (q 3 1) 5) 5 1).
